@@ -924,7 +924,35 @@ class ExecuteScriptHelper(FnContract):
         obs.append(('C08.model-unmodified', frozen(h1)))
         obs.append(('options-still-wf', z3.And(wf_run_options(h1, o), wf_locals(h1, K.term(2)))))
         obs.append(('C09.count-never-decreases', count_of(h1, o) >= count_of(h0, o)))
+        if K.ctx.ghost.get('K') is K and out.kind == 'return':
+            obs += self.return_step_spec(K, out)
         return obs
+
+    def return_step_spec(self, K, out):
+        """C08: a path that returns does so through a `return` statement (its optional value evaluated once) or by
+        running off the end of the list (null)"""
+        ctx = K.ctx
+        events = ctx.ghost.get('events', [])
+        begins = [i for i, e in enumerate(events) if e.get('kind') == 'loop-body-begin' and e['loop'].endswith('helper.loop0')]
+        res = ctx.to_term(out.value)
+        if not begins:
+            return [('C08.running-off-the-end-returns-null', res == VNone)]
+        if ctx.ghost.get('case_label') != 'stmt-return':
+            return [('C08.only-return-statements-return', False)]
+        begin = events[begins[-1]]
+        after = events[begins[-1] + 1:]
+        subs = [e for e in after if e.get('kind') == 'call' and e['callee'] == 'runtime.evaluate_expression']
+        stmts = K.term(0)
+        st = MH.lget(V.lref(stmts), V.i(ctx.to_term(begin['env']['ix_statement'])))
+        rt = mget(st, 'return')
+        if not subs:
+            return [('C08.return-without-value-returns-null', z3.And(z3.Not(mhas(rt, 'expr')), res == VNone))]
+        if len(subs) != 1 or subs[0]['outcome'].kind != 'return':
+            return [('C08.return-value-evaluated-once', False)]
+        a = subs[0]['args']
+        return [('C08.return-value-evaluated-once',
+                 z3.And(mhas(rt, 'expr'), ctx.to_term(a[0]) == mget(rt, 'expr'), ctx.to_term(a[1]) == K.term(1),
+                        ctx.to_term(a[2]) == K.term(2), res == ctx.to_term(subs[0]['outcome'].value)))]
 
     callable_model = staticmethod(host_callable_model)
 
@@ -1058,6 +1086,99 @@ def helper_body_check(L, events):
                              count_of(L.heap, o) >= count_of(e['heap_after'], oa))
             same.append(z3.Or(oa == o, carried))
     obs.append(('C09.nested-runs-are-counted', z3.And(same) if same else z3.BoolVal(True)))
+    obs += statement_step_spec(L, events, begin)
+    return obs
+
+
+def statement_step_spec(L, events, begin):
+    """C08/C04: the small-step rule of the statement that just ran (continuing iterations; `return` is checked in the
+    postcondition)"""
+    ctx = L.ctx
+    K = ctx.ghost['K']
+    case = ctx.ghost.get('case_label') or ''
+    if not case.startswith('stmt-') or case == 'stmt-include':
+        return []
+    kind = case[5:]
+    stmts, o, loc = K.term(0), K.term(1), K.term(2)
+    ix0 = ctx.to_term(begin['env']['ix_statement'])
+    ix1 = L.term('ix_statement')
+    st = MH.lget(V.lref(stmts), V.i(ix0))
+    g0 = K.heap.dget(V.dref(o), z3.StringVal('globals'))
+    subs = [e for e in events if e.get('kind') == 'call' and e['callee'] == 'runtime.evaluate_expression']
+    others = [e for e in events if e.get('kind') in ('call', 'callable') and e not in subs]
+    bound = K.heap.alloc
+    h_end = L.heap
+    obs = []
+
+    def sub_ok(ev, expr_term):
+        a = ev['args']
+        b = a[3]
+        return z3.And(ctx.to_term(a[0]) == expr_term, ctx.to_term(a[1]) == o, ctx.to_term(a[2]) == loc,
+                      ctx.to_term(b) == VBool(False))
+
+    def next_is(t):
+        return z3.And(is_int(ix1), V.i(ix1) == t)
+    if others:
+        return [('C08.no-other-calls-in-this-statement', False)]
+    if kind == 'label':
+        return [('C08.label-is-a-no-op', z3.And(len(subs) == 0, next_is(V.i(ix0) + 1),
+                                                sp_.frame_same(begin['heap'], h_end, bound, except_dicts=[V.dref(o)])))]
+    if kind == 'expr':
+        if len(subs) != 1 or subs[0]['outcome'].kind != 'return':
+            return [('C08.expression-evaluated-exactly-once', False)]
+        ev = subs[0]
+        res = ctx.to_term(ev['outcome'].value)
+        ex = mget(st, 'expr')
+        has_name = mhas(ex, 'name')
+        name = V.s(mget(ex, 'name'))
+        target = z3.If(is_none(loc), g0, loc)
+        h1 = ev['heap_after']
+        k = z3.String('k!asg')
+        tr = V.dref(target)
+        assigned = z3.And(h_end.dhas(tr, name), h_end.dget(tr, name) == res,
+                          z3.ForAll([k], z3.Implies(k != name, z3.And(h_end.dhas(tr, k) == h1.dhas(tr, k),
+                                                                       z3.Implies(h1.dhas(tr, k), h_end.dget(tr, k) == h1.dget(tr, k))))))
+        obs.append(('C08.expression-evaluated-exactly-once', sub_ok(ev, mget(ex, 'expr'))))
+        obs.append(('C04+C08.assignment-writes-locals-inside-functions-else-globals',
+                    z3.If(has_name, z3.And(assigned, sp_.frame_same(h1, h_end, bound, except_dicts=[tr])),
+                          sp_.frame_same(h1, h_end, bound))))
+        obs.append(('C08.next-statement', next_is(V.i(ix0) + 1)))
+        return obs
+    if kind == 'jump':
+        jp = mget(st, 'jump')
+        label = V.s(mget(jp, 'label'))
+        has_expr = mhas(jp, 'expr')
+        first = FIRST(stmts, label)
+        if len(subs) > 1:
+            return [('C08.jump-condition-evaluated-at-most-once', False)]
+        if subs:
+            ev = subs[0]
+            if ev['outcome'].kind != 'return':
+                return []
+            res = ctx.to_term(ev['outcome'].value)
+            taken = sp_.truthy(ev['heap_after'], res)
+            obs.append(('C08.jump-condition-evaluated-at-most-once', z3.And(has_expr, sub_ok(ev, mget(jp, 'expr')))))
+            h1 = ev['heap_after']
+        else:
+            taken = z3.BoolVal(True)
+            obs.append(('C08.jump-condition-evaluated-at-most-once', z3.Not(has_expr)))
+            h1 = begin['heap']
+        obs.append(('C08.jump-continues-after-the-first-matching-label',
+                    z3.If(taken, z3.And(first >= 0, next_is(first + 1)), next_is(V.i(ix0) + 1))))
+        obs.append(('C08.jump-has-no-other-effect', sp_.frame_same(h1, h_end, bound, except_dicts=[V.dref(o)])))
+        return obs
+    if kind == 'function':
+        fn = mget(st, 'function')
+        name = V.s(mget(fn, 'name'))
+        tr = V.dref(g0)
+        h0 = begin['heap']
+        k = z3.String('k!fn')
+        return [('C04+C08.function-statement-binds-a-global-function',
+                 z3.And(len(subs) == 0, h_end.dhas(tr, name), is_func(h_end.dget(tr, name)),
+                        z3.ForAll([k], z3.Implies(k != name, z3.And(h_end.dhas(tr, k) == h0.dhas(tr, k),
+                                                                     z3.Implies(h0.dhas(tr, k), h_end.dget(tr, k) == h0.dget(tr, k))))),
+                        sp_.frame_same(h0, h_end, bound, except_dicts=[tr, V.dref(o)]))),
+                ('C08.next-statement', next_is(V.i(ix0) + 1))]
     return obs
 
 
@@ -1257,7 +1378,7 @@ class ScriptFunction(FnContract):
             ctx = K.ctx
             runs = [e for e in ctx.ghost.get('events', []) if e.get('kind') == 'call' and e['callee'] == 'runtime._execute_script_helper']
             if len(runs) != 1:
-                obs.append(('C04.body-run-exactly-once', False))
+                obs.append(('C04+C09.body-run-exactly-once', False))
             else:
                 run = runs[0]
                 hb = run['heap_before']
@@ -1266,7 +1387,7 @@ class ScriptFunction(FnContract):
                 fargs = mget(fn, 'args')
                 n = z3.If(mhas(fn, 'args'), MH.llen(V.lref(fargs)), 0)
                 name = z3.String('nm!nb')
-                obs.append(('C04.body-runs-with-fresh-locals-and-the-callers-options',
+                obs.append(('C04+C09.body-runs-with-fresh-locals-and-the-callers-options',
                             z3.And(ctx.to_term(run['args'][0]) == mget(fn, 'statements'), ctx.to_term(run['args'][1]) == o,
                                    is_dict(loc), V.dref(loc) >= h0.alloc)))
                 obs.append(('C04.parameters-bound-positionally',
